@@ -180,7 +180,11 @@ func (fs *Filespace) Writer(destPath string) (writer filesystem.Writer, err erro
 		}
 		file.time = time.Now()
 	}
-	return NewFileHandler(file), nil
+	handler := NewFileHandler(file)
+	// a writer replaces the content (like WriteFile and like O_TRUNC on disk); the
+	// handler holds the data lock from here until Close
+	file.data = []byte{}
+	return handler, nil
 }
 
 // Reader return a file node reader
